@@ -1,21 +1,29 @@
 """Reference mapspace evaluation: R-space x real model -> cost points (DESIGN 3.3/3.4).
 
-For a small spec (1 or 2 Einsums) enumerate every LoopTree of the reference mapspace
-(mc/ref/mapspace.py), evaluate each with the real model (`evaluate_mapping`) and keep,
-for every *valid* tree, the point (energy, latency, usage per memory).
+Single-Einsum specs: every LoopTree of the reference mapspace (mc/ref/mapspace.py) is
+evaluated by the real model (`evaluate_mapping`); every *valid* tree gives a point
+(energy, latency, usage per memory).
 
-Two-Einsum specs: the fused part (shared tensor backed below the outermost level) is
-the full cross product of the per-Einsum trees that agree on the backing node and the
-loops above it, each merged tree evaluated by the model.  The unfused part (shared
-tensor backed in the outermost level) is the cross product of the two per-Einsum
-mapspaces; its points are formed from per-Einsum points (energy and latency add over
-sequential Einsums, usage is the maximum) -- the additivity is itself checked on the
-complete cross product of the smallest workload by C06/C01 thorough.
-Results are cached under /verif/.cache/<hash of /repo/accelforge + /verif/mc refs>/.
+Two-Einsum specs: the mapspace is the set of compatible pairs (one LoopTree per
+Einsum agreeing on the shared tensor's backing node and the loops above it; "unfused"
+when the shared tensor is backed in the outermost level).  Evaluating every pair by
+the model is infeasible beyond the tiniest shapes (10^5-10^6 pairs), so the pair
+space is still enumerated exhaustively but each pair's point is composed from
+  * per-Einsum energy / latency, read from the model's per-Einsum breakdown of ONE
+    merged tree per LoopTree (its first compatible partner), evaluated on a copy of the
+    architecture with infinite sizes (costs do not depend on sizes), and
+  * the pair's peak occupancy from the explicit occupancy simulation
+    (mc/ref/looptree_exec.py), which also decides validity (peak <= size).
+The two composition assumptions -- totals add over Einsums, model usage == simulated
+peak -- are themselves checked exhaustively by C04/C13 and C06.
+Only the Pareto-optimal points (energy, latency, usage) of each chunk are kept; that
+is enough for optimum and front comparisons.
+Results are cached under /verif/.cache/<hash of /repo/accelforge + reference sources>/.
 """
 
 from __future__ import annotations
 
+import dataclasses
 import json
 import os
 from pathlib import Path
@@ -23,9 +31,11 @@ from pathlib import Path
 from mc import afx
 from mc import specs as S
 from mc import treehash
+from mc.ref import looptree_exec as X
 from mc.ref import mapspace as MS
 
 CHUNK = 40
+PAIR_CHUNK = 4000  # pairs per work item in the pair stage
 
 
 def block_variants(tree):
@@ -70,68 +80,97 @@ def einsum_trees(arch, wl, einsum, orders="alpha"):
     return out
 
 
+def inf_arch(arch: S.Arch) -> S.Arch:
+    nodes = [dataclasses.replace(n, size=S.INF) if isinstance(n, S.Mem) and n.kind == "Memory" else n
+             for n in arch.nodes]
+    return S.Arch(nodes=tuple(nodes), variables=arch.variables)
+
+
 class Work:
-    """The list of trees to evaluate for one spec, in a fixed order."""
+    """The model evaluations needed for one spec, in a fixed order (stage 1), and for
+    two-Einsum specs the pair enumeration (stage 2)."""
 
     def __init__(self, sid, arch, wl, orders="alpha"):
         self.sid, self.arch, self.wl, self.orders = sid, arch, wl, orders
         names = wl.einsum_names
         self.items = []  # (kind, tree, meta)
+        self.two = len(names) == 2
         if len(names) == 1:
+            self.eval_arch = arch
             for t in einsum_trees(arch, wl, names[0], orders):
                 self.items.append(("single", t, None))
-        elif len(names) == 2:
+        elif self.two:
+            self.eval_arch = inf_arch(arch)
             (Y, prod, cons), = MS.intermediates(wl)
+            self.Y, self.prod, self.cons = Y, prod, cons
             ranks = set(dict((t, rk) for t, rk, _ in wl.tensors_of(prod))[Y])
             groups = {}
-            per = {prod: [], cons: []}
             for e in (prod, cons):
                 for t in einsum_trees(arch, wl, e, orders):
                     top, pre, b, rest = MS.split_at_backing(t, Y)
                     if pre is None:
-                        per[e].append(t)
-                        continue
-                    kk = MS.fused_prefix_key(pre, ranks)
-                    if kk is None:
-                        continue
-                    groups.setdefault((b[1], kk), {}).setdefault(e, []).append(t)
-            for key in sorted(groups, key=str):
-                g = groups[key]
-                for a in g.get(prod, []):
-                    for b in g.get(cons, []):
-                        m = MS.merge_two(a, b, Y)
-                        if m is not None:
-                            self.items.append(("fused", m, None))
-            # unfused: every tree of one Einsum next to a fixed base tree of the other
-            base = {e: per[e][0] for e in (prod, cons)}
-            for t in per[prod]:
-                self.items.append(("unfused", [("SEQ", [list(t), list(base[cons])])], prod))
-            for t in per[cons]:
-                self.items.append(("unfused", [("SEQ", [list(base[prod]), list(t)])], cons))
+                        key = ("unfused",)
+                    else:
+                        kk = MS.fused_prefix_key(pre, ranks)
+                        if kk is None:
+                            continue
+                        key = (b[1], kk)
+                    groups.setdefault(key, {}).setdefault(e, []).append(t)
+            self.groups = {k: g for k, g in sorted(groups.items(), key=lambda kv: str(kv[0]))
+                           if g.get(prod) and g.get(cons)}
+            self.gkeys = list(self.groups)
+            for gi, key in enumerate(self.gkeys):
+                g = self.groups[key]
+                for e, other in ((prod, cons), (cons, prod)):
+                    partner = g[other][0]
+                    for ti, t in enumerate(g[e]):
+                        pair = (t, partner) if e == prod else (partner, t)
+                        self.items.append(("cost", MS.merge_two(pair[0], pair[1], Y), (gi, e, ti)))
+            # stage 2 work items: (group index, start, stop) over the flattened pair index
+            self.pair_items = []
+            outer_inf = str(arch.memories[0].size) == "inf"
+            self.decoupled = None
+            for gi, key in enumerate(self.gkeys):
+                g = self.groups[key]
+                n = len(g[prod]) * len(g[cons])
+                if key == ("unfused",) and outer_inf:
+                    # sequential branches below an infinite outermost memory share nothing:
+                    # the pair space factorises exactly (see unfused_points)
+                    self.decoupled = gi
+                    continue
+                for s in range(0, n, PAIR_CHUNK):
+                    self.pair_items.append((gi, s, min(n, s + PAIR_CHUNK)))
         else:
             raise ValueError("reference mapspace supports 1-2 Einsums")
 
     def n_chunks(self):
         return (len(self.items) + CHUNK - 1) // CHUNK
 
+    def n_pairs(self):
+        if not self.two:
+            return 0
+        return sum(len(g[self.prod]) * len(g[self.cons]) for g in self.groups.values())
+
 
 _PREP: dict = {}
 
 
-def _prep(sid, arch, wl):
-    if sid not in _PREP:
+def _prep(work: Work):
+    if work.sid not in _PREP:
         _PREP.clear()
-        _PREP[sid] = afx.prepare(S.build_spec(arch, wl, S.Knobs("E")))
-    return _PREP[sid]
+        _PREP[work.sid] = afx.prepare(S.build_spec(work.eval_arch, work.wl, S.Knobs("E")))
+    return _PREP[work.sid]
 
 
 def eval_chunk(work: Work, ci: int):
-    """-> list of records for items[ci*CHUNK:(ci+1)*CHUNK]"""
-    prep = _prep(work.sid, work.arch, work.wl)
+    """Stage 1 -> list of records for items[ci*CHUNK:(ci+1)*CHUNK]"""
+    prep = _prep(work)
     mems = [m.name for m in work.arch.memories]
     out = []
     for kind, tree, meta in work.items[ci * CHUNK:(ci + 1) * CHUNK]:
-        rec = {"kind": kind, "tree": afx.tree_str(tree), "meta": meta}
+        rec = {"kind": kind, "meta": meta}
+        if kind == "single":
+            rec["tree"] = afx.tree_str(tree)
         try:
             r = afx.evaluate_tree(prep, tree)
             if len(r.data) == 0:
@@ -139,68 +178,127 @@ def eval_chunk(work: Work, ci: int):
                 rec["why"] = "empty"
             else:
                 rec["valid"] = True
-                ru = r.resource_usage()
-                rec["usage"] = {m: float(ru.get(m, 0.0)) for m in mems}
-                rec["energy"] = float(r.energy())
-                rec["latency"] = float(r.latency())
-                if kind == "unfused":
-                    pe = r.energy(per_einsum=True)
-                    pl = r.latency(per_einsum=True)
-                    rec["e_einsum"] = float(pe[meta])
-                    rec["l_einsum"] = float(pl[meta])
-                    # this Einsum's own buffer usage: total usage is a max over branches; the
-                    # base tree of the other Einsum keeps nothing below the outermost level
-        except Exception as e:
+                if kind == "single":
+                    ru = r.resource_usage()
+                    rec["usage"] = {m: float(ru.get(m, 0.0)) for m in mems}
+                    rec["energy"] = float(r.energy())
+                    rec["latency"] = float(r.latency())
+                else:
+                    e = meta[1]
+                    rec["energy"] = float(r.energy(per_einsum=True)[e])
+                    rec["latency"] = float(r.latency(per_einsum=True)[e])
+        except Exception as ex:
             rec["valid"] = False
-            rec["why"] = type(e).__name__
+            rec["why"] = type(ex).__name__
         out.append(rec)
     return out
 
 
-def assemble(work: Work, records):
-    """records in item order -> dict with reference points."""
+def pair_chunk(work: Work, costs, item):
+    """Stage 2: enumerate the pairs [start, stop) of one group; returns
+    (n_pairs, n_valid, local Pareto front of (energy, latency, usage tuple, description))."""
+    gi, start, stop = item
+    g = work.groups[work.gkeys[gi]]
+    l0, l1 = g[work.prod], g[work.cons]
+    n1 = len(l1)
     mems = [m.name for m in work.arch.memories]
-    pts = []
-    n_valid = 0
-    per = {}
+    sizes = {m.name: (float("inf") if str(m.size) == "inf" else float(m.size)) for m in work.arch.memories}
+    pts, n_valid = [], 0
+    for idx in range(start, stop):
+        i, j = divmod(idx, n1)
+        c0 = costs.get((gi, work.prod, i))
+        c1 = costs.get((gi, work.cons, j))
+        if c0 is None or c1 is None:
+            continue
+        m = MS.merge_two(l0[i], l1[j], work.Y)
+        peak = X.peak_occupancy(m, work.arch, work.wl)
+        if any(float(peak[mm]) > sizes[mm] * (1 + 1e-9) for mm in mems):
+            continue
+        n_valid += 1
+        u = tuple(0.0 if sizes[mm] == float("inf") else float(peak[mm]) / sizes[mm] for mm in mems)
+        pts.append((c0[0] + c1[0], c0[1] + c1[1], u, (gi, i, j)))
+    front = pareto_min(pts)
+    out = []
+    for p in front:
+        gi_, i, j = p[3]
+        out.append((p[0], p[1], p[2], afx.tree_str(MS.merge_two(l0[i], l1[j], work.Y))))
+    return stop - start, n_valid, out
+
+
+def unfused_points(work: Work, costs):
+    """Unfused pairs (shared tensor backed in the infinite outermost memory): the two
+    branches run one after the other and share no finite memory, so a pair is valid iff
+    both trees are, its usage is the maximum and its costs the sum.  The pair space is
+    therefore represented exactly by the product of the two per-Einsum Pareto fronts."""
+    gi = work.decoupled
+    if gi is None:
+        return 0, 0, []
+    g = work.groups[work.gkeys[gi]]
+    mems = [m.name for m in work.arch.memories]
+    sizes = {m.name: (float("inf") if str(m.size) == "inf" else float(m.size)) for m in work.arch.memories}
+    fr, nv = {}, {}
+    for e in (work.prod, work.cons):
+        pts = []
+        for ti, t in enumerate(g[e]):
+            c = costs.get((gi, e, ti))
+            if c is None:
+                continue
+            peak = X.peak_occupancy(t, work.arch, work.wl)
+            if any(float(peak[mm]) > sizes[mm] * (1 + 1e-9) for mm in mems):
+                continue
+            u = tuple(0.0 if sizes[mm] == float("inf") else float(peak[mm]) / sizes[mm] for mm in mems)
+            pts.append((c[0], c[1], u, afx.tree_str(t)))
+        nv[e] = len(pts)
+        fr[e] = pareto_min(pts)
+    out = []
+    for a in fr[work.prod]:
+        for b in fr[work.cons]:
+            out.append((a[0] + b[0], a[1] + b[1], tuple(max(x, y) for x, y in zip(a[2], b[2])),
+                        "SEQ(" + a[3] + " || " + b[3] + ")"))
+    return len(g[work.prod]) * len(g[work.cons]), nv[work.prod] * nv[work.cons], pareto_min(out)
+
+
+def assemble_single(work: Work, records):
+    mems = [m.name for m in work.arch.memories]
+    pts, n_valid = [], 0
     for rec in records:
         if not rec["valid"]:
             continue
         n_valid += 1
-        u = tuple(rec["usage"][m] for m in mems)
-        if rec["kind"] in ("single", "fused"):
-            pts.append((rec["energy"], rec["latency"], u, rec["tree"]))
-        else:
-            per.setdefault(rec["meta"], []).append((rec["e_einsum"], rec["l_einsum"], u, rec["tree"]))
-    n_unfused_pairs = 0
-    if per:
-        names = work.wl.einsum_names
-        fr = {e: pareto_min(per.get(e, [])) for e in names}
-        n_unfused_pairs = len(per.get(names[0], [])) * len(per.get(names[1], []))
-        for a in fr[names[0]]:
-            for b in fr[names[1]]:
-                u = tuple(max(x, y) for x, y in zip(a[2], b[2]))
-                pts.append((a[0] + b[0], a[1] + b[1], u, "SEQ(" + a[3] + " || " + b[3] + ")"))
+        pts.append((rec["energy"], rec["latency"], tuple(rec["usage"][m] for m in mems), rec["tree"]))
     return {"sid": work.sid, "mems": mems, "n_trees": len(records), "n_valid": n_valid,
-            "n_unfused_pairs_represented": n_unfused_pairs, "points": pts}
+            "n_unfused_pairs_represented": 0, "points": pareto_min(pts)}
+
+
+def costs_of(records):
+    return {tuple(r["meta"]): (r["energy"], r["latency"]) for r in records if r["valid"]}
+
+
+def assemble_pairs(work: Work, n_model_evals, chunks, costs=None):
+    mems = [m.name for m in work.arch.memories]
+    pts, n_pairs, n_valid = [], 0, 0
+    n_unf = 0
+    if costs is not None:
+        n_unf, v_unf, front = unfused_points(work, costs)
+        chunks = list(chunks) + [(0, 0, front)]
+    for n, v, front in chunks:
+        n_pairs += n
+        n_valid += v
+        pts.extend(front)
+    return {"sid": work.sid, "mems": mems, "n_trees": n_pairs, "n_valid": n_valid,
+            "n_model_evaluations": n_model_evals, "n_unfused_pairs_represented": n_unf, "points": pareto_min(pts)}
 
 
 def pareto_min(pts):
-    """Non-dominated points on (energy, latency, usage...)."""
-    out = []
+    """Non-dominated points on (energy, latency, usage...), first of duplicates."""
     vec = lambda p: (p[0], p[1]) + tuple(p[2])
-    for i, p in enumerate(pts):
+    pts = sorted(pts, key=vec)
+    out = []
+    for p in pts:
         vp = vec(p)
-        dom = False
-        for j, q in enumerate(pts):
-            if i == j:
-                continue
-            vq = vec(q)
-            if all(x <= y for x, y in zip(vq, vp)) and (any(x < y for x, y in zip(vq, vp)) or j < i):
-                dom = True
-                break
-        if not dom:
-            out.append(p)
+        if any(all(x <= y for x, y in zip(vec(q), vp)) for q in out):
+            continue
+        out.append(p)
     return out
 
 
